@@ -23,7 +23,7 @@ func init() {
 			"receiver's endpoints does so only behind a test of the receiver's own emptiness or length (the empty interval is a pair of out-of-order endpoints; arithmetic on them produces an " +
 			"ordinary interval); (b) in s1.Interval.Expanded the tests that predict a full or empty result use the same length the result has: length + k*margin with k equal to the margin's " +
 			"coefficient in (new Hi - new Lo), and they allow rounding in the conservative direction.",
-		Min: 4,
+		Min: 8,
 		Run: runExpand,
 	})
 }
@@ -147,6 +147,187 @@ func runExpand(c *core.Ctx) []core.Obligation {
 	}
 	// (b) s1.Interval.Expanded thresholds
 	obs = append(obs, expandThresholds(c)...)
+	// (c) the two sentinels of ChordAngle (negative = empty, +Inf) pass through Expanded unchanged: the arithmetic is
+	// reachable only past tests that cover BOTH of them
+	if fn := c.Fn("s1", "ChordAngle", "Expanded"); fn != nil && len(fn.Params) > 0 {
+		recv := fn.Params[0]
+		covers := func(cond ssa.Value) (neg, inf bool) {
+			seen := map[ssa.Value]bool{}
+			var walk func(v ssa.Value)
+			walk = func(v ssa.Value) {
+				if v == nil || seen[v] {
+					return
+				}
+				seen[v] = true
+				switch x := v.(type) {
+				case *ssa.Call:
+					if f := core.StaticCallee(x); f != nil && len(x.Call.Args) == 1 && x.Call.Args[0] == ssa.Value(recv) {
+						switch f.Name() {
+						case "isSpecial":
+							neg, inf = true, true
+						case "IsInfinity":
+							inf = true
+						case "IsNegative":
+							neg = true
+						}
+					}
+				case *ssa.BinOp:
+					if x.X == ssa.Value(recv) && (x.Op == token.LSS) {
+						if k, ok := x.Y.(*ssa.Const); ok && k.Value != nil && k.Value.String() == "0" {
+							neg = true
+						}
+					}
+					walk(x.X)
+					walk(x.Y)
+				case *ssa.UnOp:
+					walk(x.X)
+				case *ssa.Phi:
+					for _, e := range x.Edges {
+						walk(e)
+					}
+				}
+			}
+			walk(cond)
+			return
+		}
+		ok, why, n := true, "", 0
+		core.AllInstrs(fn, func(in ssa.Instruction) {
+			bo, isBo := in.(*ssa.BinOp)
+			if !isBo || (bo.Op != token.ADD && bo.Op != token.SUB) {
+				return
+			}
+			if b, isB := bo.Type().Underlying().(*types.Basic); !isB || b.Info()&types.IsFloat == 0 {
+				return
+			}
+			n++
+			// union of what the branch conditions on the way cover
+			neg, inf := false, false
+			for _, b := range fn.Blocks {
+				iff, isIf := b.Instrs[len(b.Instrs)-1].(*ssa.If)
+				if !isIf || !b.Dominates(bo.Block()) || b == bo.Block() {
+					continue
+				}
+				n1, i1 := covers(iff.Cond)
+				neg, inf = neg || n1, inf || i1
+			}
+			if !neg || !inf {
+				ok = false
+				missing := "the negative (empty) sentinel"
+				if neg {
+					missing = "the infinite sentinel"
+				}
+				why = "ChordAngle.Expanded does arithmetic on its receiver without first returning " + missing + " unchanged: an empty cap's radius expanded by an error bound becomes a small non-negative radius, i.e. a cap that contains its centre"
+			}
+		})
+		if n == 0 {
+			ok, why = false, "no arithmetic found in ChordAngle.Expanded (anchor lost)"
+		}
+		if ok {
+			obs = append(obs, core.Ob("R-EXPAND", "chordangle-special-guard", c.Pos(fn.Pos()), core.FuncName(fn), core.Discharged, "the arithmetic is reached only when the receiver is neither negative nor infinite"))
+		} else {
+			obs = append(obs, core.Ob("R-EXPAND", "chordangle-special-guard", c.Pos(fn.Pos()), core.FuncName(fn), core.Violated, why))
+		}
+	} else {
+		obs = append(obs, core.Ob("R-EXPAND", "chordangle-special-guard", "-", "", core.Violated, "unresolved anchor"))
+	}
+	// (d) a rectangle assembled from two component results that can each be empty is the canonical empty rectangle
+	// unless BOTH components are non-empty (a half-empty rectangle is invalid: IsEmpty looks at one component only)
+	for _, pk := range []string{"r2", "s2"} {
+		for _, fn := range c.GeoFuncs() {
+			if fn.Pkg == nil || fn.Pkg.Pkg.Name() != pk || fn.Signature.Recv() == nil || !core.IsNamed(fn.Signature.Recv().Type(), pk, "Rect") {
+				continue
+			}
+			if fn.Signature.Results().Len() != 1 || !core.IsNamed(fn.Signature.Results().At(0).Type(), pk, "Rect") {
+				continue
+			}
+			// component results that may be empty: calls of Intersection / Expanded on an interval
+			var comps []*ssa.Call
+			core.AllInstrs(fn, func(in ssa.Instruction) {
+				if call, ok := in.(*ssa.Call); ok {
+					if f := core.StaticCallee(call); f != nil && (f.Name() == "Intersection" || f.Name() == "Expanded") && f.Signature.Recv() != nil &&
+						(core.IsNamed(f.Signature.Recv().Type(), "r1", "Interval") || core.IsNamed(f.Signature.Recv().Type(), "s1", "Interval")) {
+						// only operations applied to a component of the receiver rectangle itself
+						if fr, isF := core.AsFieldLoad(call.Call.Args[0]); isF {
+							base := fr.Base
+							if ld, isLd := base.(*ssa.UnOp); isLd {
+								base = ld.X
+							}
+							isRecv := base == ssa.Value(fn.Params[0])
+							if al, isAl := base.(*ssa.Alloc); isAl {
+								for _, r := range *al.Referrers() {
+									if st, isSt := r.(*ssa.Store); isSt && st.Addr == ssa.Value(al) && st.Val == ssa.Value(fn.Params[0]) {
+										isRecv = true
+									}
+								}
+							}
+							if isRecv {
+								comps = append(comps, call)
+							}
+						}
+					}
+				}
+			})
+			if len(comps) < 2 {
+				continue
+			}
+			// the block that returns the assembled rectangle: the return whose value is not a call to EmptyRect
+			var retBlocks []*ssa.BasicBlock
+			for _, b := range fn.Blocks {
+				if r, ok := b.Instrs[len(b.Instrs)-1].(*ssa.Return); ok && len(r.Results) == 1 {
+					if call, isCall := r.Results[0].(*ssa.Call); isCall && core.StaticCallee(call) != nil && core.StaticCallee(call).Name() == "EmptyRect" {
+						continue
+					}
+					retBlocks = append(retBlocks, b)
+				}
+			}
+			ok, why := true, ""
+			for _, comp := range comps {
+				guarded := false
+				for _, b := range fn.Blocks {
+					iff, isIf := b.Instrs[len(b.Instrs)-1].(*ssa.If)
+					if !isIf {
+						continue
+					}
+					call, isCall := iff.Cond.(*ssa.Call)
+					if !isCall || core.StaticCallee(call) == nil || core.StaticCallee(call).Name() != "IsEmpty" || len(call.Call.Args) != 1 {
+						continue
+					}
+					arg := call.Call.Args[0]
+					if ld, isLd := arg.(*ssa.UnOp); isLd {
+						if al, isAl := ld.X.(*ssa.Alloc); isAl {
+							for _, r := range *al.Referrers() {
+								if st, isSt := r.(*ssa.Store); isSt && st.Addr == ssa.Value(al) {
+									arg = st.Val
+								}
+							}
+						}
+					}
+					if arg != ssa.Value(comp) {
+						continue
+					}
+					all := len(retBlocks) > 0
+					for _, rb := range retBlocks {
+						if !core.EdgeDominates(core.Edge{From: b, Idx: 1}, rb) {
+							all = false
+						}
+					}
+					if all {
+						guarded = true
+					}
+				}
+				if !guarded {
+					ok = false
+					why = "the rectangle is assembled from two component results of which only one (or none) is tested for emptiness: when the untested one is empty the result is a half-empty rectangle - IsEmpty may still say true, but IsValid is false and Union/AddRect/Contains with it pick up the stale other component"
+				}
+			}
+			construct := "both-components-empty-test:" + core.FuncName(fn)
+			if ok {
+				obs = append(obs, core.Ob("R-EXPAND", construct, c.Pos(fn.Pos()), core.FuncName(fn), core.Discharged, "the assembled rectangle is returned only when both component results are non-empty"))
+			} else {
+				obs = append(obs, core.Ob("R-EXPAND", construct, c.Pos(fn.Pos()), core.FuncName(fn), core.Violated, why))
+			}
+		}
+	}
 	return obs
 }
 
